@@ -14,7 +14,9 @@ import (
 
 	"verifharness/lib"
 
+	"github.com/ipld/go-ipld-prime/codec/cbor"
 	"github.com/ipld/go-ipld-prime/codec/dagcbor"
+	"github.com/ipld/go-ipld-prime/multicodec"
 	"github.com/ipld/go-ipld-prime/datamodel"
 	"github.com/ipld/go-ipld-prime/node/basicnode"
 )
@@ -70,6 +72,23 @@ func observe(o opts, in []byte) string {
 		src = io.MultiReader(bytes.NewReader(in[:len(in)/2]), struct{ io.Reader }{bytes.NewReader(in[len(in)/2:])})
 	}
 	err := lib.Safely(func() error {
+		switch entryKind {
+		case 1: // the package-level functions that are registered as the codecs
+			if o.links {
+				return dagcbor.Decode(na, src)
+			}
+			return cbor.Decode(na, src)
+		case 2: // whatever the default multicodec registry hands out for 0x71 / 0x51
+			code := uint64(0x71)
+			if !o.links {
+				code = 0x51
+			}
+			dec, err := multicodec.LookupDecoder(code)
+			if err != nil {
+				return err
+			}
+			return dec(na, src)
+		}
 		return dagcbor.DecodeOptions{AllowLinks: o.links, RelaxedDecode: !o.strict, DontParseBeyondEnd: o.beyond,
 			AllocationBudget: o.budget, MaxDepth: o.depth}.Decode(na, src)
 	})
@@ -102,14 +121,50 @@ func observe(o opts, in []byte) string {
 // of bytes left is either 0 by contract (stop-at-end off) or not observed.
 var readerKind int
 
+// entryKind selects the entry point: 0 = DecodeOptions{...}.Decode, 1 = dagcbor.Decode / cbor.Decode, 2 = the decoder
+// registered in the default multicodec registry under 0x71 / 0x51.  1 and 2 are only used with the option settings
+// those entry points stand for (strict, no stop-at-end, default budget and depth; links on = dag-cbor, off = cbor);
+// the record then carries the suffix .e1 / .e2 on its id, which is all a replay needs.
+var entryKind int
+
+func entryOpts(o opts) bool {
+	return o.strict && !o.beyond && o.budget == 0 && o.depth == 0 && !o.perm
+}
+
 var defaultOpts = opts{strict: true, links: true}
 
 func main() {
 	fl := lib.ParseFlags()
 	out := lib.OpenOut(fl.Out)
 	defer out.Close()
+	nEntry := 0
 	emit := func(id string, o opts, in []byte) {
+		if strings.HasSuffix(id, ".e1") || strings.HasSuffix(id, ".e2") { // replayed entry-point record
+			entryKind = int(id[len(id)-1] - '0')
+			out.Case(id, "dec", o.String(), lib.Hex(string(in)), observe(o, in))
+			entryKind = 0
+			return
+		}
 		out.Case(id, "dec", o.String(), lib.Hex(string(in)), observe(o, in))
+		if fl.Replay == "" && entryOpts(o) && readerKind == 0 {
+			nEntry++
+			if strings.HasPrefix(id, "k") || nEntry%5 == 0 {
+				// the same input through the registered entry points, as dag-cbor and as plain cbor (links refused)
+				for _, lk := range []bool{true, false} {
+					o2 := o
+					o2.links = lk
+					for ek := 1; ek <= 2; ek++ {
+						entryKind = ek
+						l := "1"
+						if !lk {
+							l = "0"
+						}
+						out.Case(fmt.Sprintf("%s.l%s.e%d", id, l, ek), "dec", o2.String(), lib.Hex(string(in)), observe(o2, in))
+					}
+				}
+				entryKind = 0
+			}
+		}
 	}
 	if fl.Replay != "" {
 		for _, line := range lib.ReadLines(fl.Replay) {
